@@ -442,6 +442,17 @@ func (env *Zlisp) PrepareCallExprArgs(function *SexpFunction, args []Sexp) error
 		if err != nil {
 			return err
 		}
+		if function != nil && !function.user {
+			// a dot-symbol (h.x) or a selector evaluates to itself: it
+			// names a location. A compiled function binds its parameter
+			// to the value, so read the location here, in the scopes
+			// of the call and before the next argument is evaluated.
+			// (Go builtins such as = take the location itself.)
+			val, err = env.RValue(val)
+			if err != nil {
+				return err
+			}
+		}
 		env.datastack.PushExpr(val)
 	}
 	return nil
